@@ -1364,6 +1364,7 @@ class Linker:
         self.__globals = {}
         self.__loader = loader
         self.__pendingImports = set()
+        self.__loadedImports = set()
 
     def AddModule(self, module: Module):
         self.__modules.append(module)
@@ -1378,8 +1379,14 @@ class Linker:
         self.__pendingImports.update(module.Imports)
 
     def Link(self) -> Program:
-        # add all imported modules
-        for importedModule in self.__pendingImports:
-            self.AddModule(self.__loader.Load(importedModule))
+        # Add all imported modules. Adding a module can bring in further
+        # imports, so this runs until nothing new shows up; every module is
+        # loaded once, no matter how many modules import it
+        while self.__pendingImports:
+            pending = sorted(self.__pendingImports - self.__loadedImports)
+            self.__pendingImports = set()
+            for importedModule in pending:
+                self.__loadedImports.add(importedModule)
+                self.AddModule(self.__loader.Load(importedModule))
 
         return Program(self.__functions, self.__globals)
